@@ -9,6 +9,9 @@ type c14Graph struct {
 }
 
 // c14Build forks over EVERY subset of directed links from any node to any non-sensor node (self-loops included).
+// c14Ungrouped: the network's allNodes list is not grouped by role
+var c14Ungrouped bool
+
 // c14InputOnlyToFirstHidden: (thorough) the input feeds the first hidden node only, all other links are forked
 var c14InputOnlyToFirstHidden bool
 
@@ -52,7 +55,14 @@ func c14Build(nIn, nOut, nHid int) *c14Graph {
 			}
 		}
 	}
-	g.net = NewNetwork(ins, outs, g.nodes, 1)
+	all := g.nodes
+	if c14Ungrouped {
+		// the network's node list in an order that is not grouped by role: hidden nodes first, then sensors, then outputs
+		all = nil
+		all = append(all, g.nodes[nIn+nOut:]...)
+		all = append(all, g.nodes[:nIn+nOut]...)
+	}
+	g.net = NewNetwork(ins, outs, all, 1)
 	return g
 }
 
@@ -141,7 +151,11 @@ func vc14(nIn, nOut, nHid int) {
 	vReach("end")
 }
 
-func VC14_Depth_Quick()  { vc14(1, 1, 2) }
+func VC14_Depth_Quick() { vc14(1, 1, 2) }
+func VC14_Depth_Ungrouped() {
+	c14Ungrouped = true
+	vc14(1, 1, 2)
+}
 func VC14_Depth_TwoOut() { vc14(1, 2, 1) }
 func VC14_Depth_Thorough() {
 	c14InputOnlyToFirstHidden = true
